@@ -29,8 +29,41 @@ def kronTrace {c : Nat} : List (Factor Rat) → Nat → (Nat → Fin c → Rat) 
   | [], R, res => [showM (fun (i : Fin R) col => res i.1 col)]
   | f :: fs, R, res => showM (fun (i : Fin R) col => res i.1 col) :: kronTrace fs (kronStepRows f R) (kronStep f R res)
 
+/-- states handed to each factor's `_t_matmul` in the Kronecker `_t_matmul` loop (flattened), then the final state. -/
+def kronTTrace {c : Nat} : List (Factor Rat) → Nat → (Nat → Fin c → Rat) → List String
+  | [], R, res => [showM (fun (i : Fin R) col => res i.1 col)]
+  | f :: fs, R, res => showM (fun (i : Fin R) col => res i.1 col) :: kronTTrace fs (kronTStepRows f R) (kronTStep f R res)
+
+def showShape (o : Option (List Nat)) : String :=
+  match o with
+  | none => "error"
+  | some l => showList toString l
+
 def run (ws : List String) : String :=
   match ws with
+  | ["bshape", a, b] =>
+    match parseNats? a, parseNats? b with
+    | some sa, some sb => showShape (broadcastShape sa sb)
+    | _, _ => "bad"
+  | ["mshape", a, m, n, b, n', p] =>
+    match parseNats? a, m.toNat?, n.toNat?, parseNats? b, n'.toNat?, p.toNat? with
+    | some sa, some m, some n, some sb, some n', some p => showShape (matmulShape sa m n sb n' p)
+    | _, _, _, _, _, _ => "bad"
+  | ["mshapevec", a, m, n, p] =>
+    match parseNats? a, m.toNat?, n.toNat?, p.toNat? with
+    | some sa, some m, some n, some p => showShape (matmulShapeVec sa m n p)
+    | _, _, _, _ => "bad"
+  | ["brestrict", a, i] =>
+    match parseNats? a, parseNats? i with
+    | some sa, some idx => showList toString (restrict sa idx)
+    | _, _ => "bad"
+  | "kronttrace" :: x :: fsw =>
+    match parseMat? x, mats fsw with
+    | some xa, some fa =>
+      let fs := fa.map factorOf
+      let Y := matAs (rowsProd fs) (colsOf xa) xa
+      " | ".intercalate (kronTTrace fs (rowsProd fs) (fun i col => if h : i < rowsProd fs then Y ⟨i, h⟩ col else 0))
+    | _, _ => "bad"
   | "kron" :: x :: fsw =>
     match parseMat? x, mats fsw with
     | some xa, some fa =>
@@ -41,7 +74,7 @@ def run (ws : List String) : String :=
     match parseMat? x, mats fsw with
     | some xa, some fa =>
       let fs := fa.map factorOf
-      showM (kronTMatmul fs (matAs (colsProd (kronTranspose fs)) (colsOf xa) xa))
+      showM (kronTMatmulLoop fs (matAs (rowsProd fs) (colsOf xa) xa))
     | _, _ => "bad"
   | "krondense" :: fsw =>
     match mats fsw with
